@@ -175,6 +175,19 @@ E('D2.sec_contact_asym_mig_three_epoch', 'D2.sec_contact_sym_mig_three_epoch', '
 E('D2.sec_contact_asym_mig_three_epoch', 'D2.anc_asym_mig', 'T=0', {'T1': 0, 'T2': 'T1', '__tie__': ('T2', 'T1')})
 E('SEL.split_asym_mig_sel', 'SEL.split_mig_sel', 'm12=m21', {'m12': 'm', 'm21': 'm'})
 
+# epochs isolated the other way round (the LATER epoch of zero length), keeping unequal selection coefficients: a slip in the first
+# epoch's call is invisible in every edge above, where that epoch vanishes or both coefficients are equal.
+# '__simple__' holds parameters of the simple model at fixed values.
+E('SEL.split_delay_mig_sel', 'SEL.split_asym_mig_sel', 'T=0', {'Tpre': 'T', 'Tmig': 0, 'm12': 1.3, 'm21': 0.7, '__simple__': {'m12': 0, 'm21': 0}})
+E('D2.split_delay_mig', 'D2.split_asym_mig', 'T=0', {'Tpre': 'T', 'Tmig': 0, 'm12': 1.3, 'm21': 0.7, '__simple__': {'m12': 0, 'm21': 0}})
+E('SEL.three_epoch_sel', 'SEL.two_epoch_sel', 'T=0', {'nuB': 0.6, 'nuF': 'nu', 'TB': 0, 'TF': 'T'})
+E('SEL.bottlegrowth_split_mig_sel', 'SEL.bottlegrowth_split_sel', 'm=0', {'m': 0})
+E('SEL.bottlegrowth_split_sel', 'SEL.bottlegrowth_2d_sel', 'T=0', {'Ts': 0})
+E('SEL.split_mig_sel', 'SEL.split_asym_mig_sel', 'm=0', {'m': 0, '__simple__': {'m12': 0, 'm21': 0}})
+# IM without growth (final sizes equal to the initial fractions s and 1-s) is a plain split with asymmetric migration
+E('SEL.IM_sel', 'SEL.split_asym_mig_sel', 'reparam', {'s': 0.3, '__simple__': {'nu1': 0.3, 'nu2': 0.7}})
+E('D2.IM', 'D2.split_asym_mig', 'reparam', {'s': 0.3, '__simple__': {'nu1': 0.3, 'nu2': 0.7}})
+
 # ------------------------------------------------------------------ label-swap symmetries (two populations):
 # model -> permutation of its parameter names induced by exchanging the population labels (values move with the names)
 SWAPS = {
